@@ -116,6 +116,12 @@ class ClassRef(object):
     def __init__(self, cls):
         self.cls = cls
 
+    def __eq__(self, o):
+        return isinstance(o, ClassRef) and o.cls is self.cls
+
+    def __hash__(self):
+        return hash(('ClassRef', id(self.cls)))
+
     def __deepcopy__(self, memo):
         return self
 
@@ -148,6 +154,12 @@ class Builtin(object):
 class FuncRef(object):
     def __init__(self, func):
         self.func = func
+
+    def __eq__(self, o):
+        return isinstance(o, FuncRef) and o.func is self.func
+
+    def __hash__(self):
+        return hash(('FuncRef', id(self.func)))
 
     def __deepcopy__(self, memo):
         return self
